@@ -465,7 +465,7 @@ def main_check(prop: Property, argv: List[str]) -> int:
     tags: Dict[str, int] = {}
     samples: List[Any] = []
     in_scope_n = 0
-    exhaustive_note = None
+    corr_overflow = [0]
 
     try:
         if not status.driver_built:
@@ -498,8 +498,10 @@ def main_check(prop: Property, argv: List[str]) -> int:
                         pass  # implementation better than the model inside a recorded defect class
                     elif j.known:
                         pass  # recorded defect: model mirrors or not, the spec failure is already noted
-                    else:
+                    elif len(corr_failures) < 500:
                         corr_failures.append(Failure("correspondence", case, obs, drv, j.detail, j.known))
+                    else:
+                        corr_overflow[0] += 1
             batch.clear()
 
         for case in prop.corpus():
@@ -509,7 +511,8 @@ def main_check(prop: Property, argv: List[str]) -> int:
             batch.append(case)
             if len(batch) >= 2000:
                 flush()
-                if len(failures) + len(corr_failures) > 50:
+                # keep searching for a spec-violating input while only the correspondence is broken
+                if len(failures) > 50 or (failures and len(failures) + len(corr_failures) > 200):
                     break
         flush()
         extra = prop.extra_checks(rng, tier, deep)
@@ -595,7 +598,7 @@ def main_check(prop: Property, argv: List[str]) -> int:
         "shape_guard_changed": changed,
         "deep_search": deep,
         "known_findings_seen": sorted(known_seen),
-        "correspondence_failures": len(corr_failures),
+        "correspondence_failures": len(corr_failures) + corr_overflow[0],
         "spec_failures": len(failures),
         "exhaustive": bool(getattr(prop, "exhaustive_done", False)),
     }
